@@ -492,10 +492,14 @@ def _evaluated(ctx, K):
     return kmin
 
 
-def _cuts(stream, hlen, first_min, thorough):
+def _cuts(stream, hlen, first_min, thorough, sparse=False):
+    """every 2-way cut; 3-way cuts over the positions around the signature, the version decision and the end of the header (all positions in the
+    thorough tier for short streams; ``sparse``: a thinner selection of the same regions, used in the quick tier for the additional payloads)"""
     n = len(stream)
     two = [(i,) for i in range(first_min, n)]
     hot = sorted({i for i in list(range(first_min, first_min + 17)) + list(range(hlen - 3, hlen + 4)) + [(first_min + hlen) // 2, n - 1] if first_min <= i < n})
+    if sparse and not thorough:
+        hot = sorted({i for i in [first_min, first_min + 4, first_min + 7, first_min + 11, first_min + 12, first_min + 15, hlen - 1, hlen, hlen + 1, n - 1] if first_min <= i < n})
     pool = list(range(first_min, n)) if thorough and n <= 70 else hot
     three = [(i, j) for i in pool for j in pool if i < j]
     return two + three
@@ -519,7 +523,7 @@ def _segmentation(ctx):
                                   f"header's addresses (or the transport's for an address-less header), exactly {pl!r} forwarded, connection open")
                         bad = None
                         n = 0
-                        for cuts in _cuts(stream, len(h), first_min, ctx.tier == "thorough"):
+                        for cuts in _cuts(stream, len(h), first_min, ctx.tier == "thorough", sparse=pl != payloads[0]):
                             pts = (0,) + cuts + (len(stream),)
                             chunks = [stream[a:b] for a, b in zip(pts, pts[1:])]
                             got = _drive(ctx, chunks)
